@@ -286,6 +286,7 @@ func TestVerif_C01_Converge(t *testing.T) {
 }
 
 func c01Case(rt *rapid.T, rec *vstat.Rec) {
+	store.G8aNextCase()
 	reqs := c01GenProgram(rt)
 	followerLive := rapid.IntRange(0, 2).Draw(rt, "followerLive") == 0
 	snapshotBefore := rapid.IntRange(0, 2).Draw(rt, "snapshotBeforeReplay") == 0
